@@ -35,7 +35,7 @@ func (engC17) ID() string    { return "C17" }
 func (engC17) Level() string { return "exploration" }
 func (engC17) Runs(tier string) int {
 	if tier == "thorough" {
-		return 600000
+		return 2500000
 	}
 	return 16000
 }
@@ -45,6 +45,7 @@ func (engC17) RaceRuns(tier string) int {
 	}
 	return 600
 }
+func (engC17) ProcessStateful() bool { return true }
 func (engC17) Rule() string {
 	return "each run has 1-5 simulated caller tasks (1 = a sequential history) issuing 3-12 registry operations each: RegisterDecorationName(pool name, one of 20 recognisable decorations; overwrites included), Named(pool / built-in / never-registered name), RegisteredDecorationNames(), and SetDecorationNamed(name)+Render. Tasks are real goroutines parked at the verif-tag yield hook before every registry lock and after every unlock; a seeded schedule decides which one proceeds, so operations genuinely overlap in simulated time. Invoke/return of every operation is stamped with the global event sequence number and the recorded history is checked against the statement (registered-value, fail-closed, latest-after-quiescence, sorted/duplicate-free/complete listing). After the tasks finish a final lookup of every pool name and a final listing are appended to the history. A second prong runs the same task scripts as truly parallel goroutines under the Go race detector (see x_race_* keys). Non-trivial = at least two tasks and one registration; distinct = distinct interleavings (hash of the (task, park site) sequence) x scripts."
 }
@@ -172,10 +173,11 @@ func (engC19) ID() string    { return "C19" }
 func (engC19) Level() string { return "exploration" }
 func (engC19) Runs(tier string) int {
 	if tier == "thorough" {
-		return 120000
+		return 400000
 	}
 	return 2400
 }
+func (engC19) ProcessStateful() bool { return true }
 func (engC19) Rule() string {
 	return "each run is a registration history over a per-run pool of up to 6 application-style names (plain, mixed case with a space, non-ASCII, containing a dot, upper case, single letter) with overwrites, interleaved with probe steps; two thirds of the runs are sequential histories, one third have a second task registering concurrently under the scheduler while the first probes. At every probe, in the registry state reached: ListStyles() is sorted and contains the four sub-packages, the six built-ins and every registered name (and, when nothing is in flight, no unregistered pool name); every listed name of this run constructs with auto.New and renders without error, with the registered decoration's glyphs; each sub-package name in 4 case variants, alone and with a seeded trailing section, yields that renderer and identical output; NAME and texttable.NAME yield identical text-table output, equal to texttable with SetDecorationNamed(NAME); texttable (any case) renders like the default; unknown names ('', unknown, texttable.unknown, 'csvx', 'x.csv') yield an error and no text. The style-grammar clauses are plain enumeration inside each reached state (said so in DESIGN.md section 3.10). Non-trivial = at least one probe after at least one registration; distinct = distinct (history, interleaving) hashes."
 }
@@ -271,7 +273,7 @@ func (engC16) ID() string    { return "C16" }
 func (engC16) Level() string { return "exploration" }
 func (engC16) Runs(tier string) int {
 	if tier == "thorough" {
-		return 200000
+		return 1500000
 	}
 	return 5000
 }
@@ -281,6 +283,7 @@ func (engC16) RaceRuns(tier string) int {
 	}
 	return 320
 }
+func (engC16) ProcessStateful() bool { return true }
 func (engC16) Rule() string {
 	return "each run has 2-4 simulated caller tasks that each own a table and its wrappers: a seeded build script (SimItems, properties, logging callbacks) followed by 2-6 renders over all formats, decorations and routes (Render(), RenderTo(SimWriter), auto), plus optionally one task that keeps reading the decoration registry and auto.ListStyles() and registers names nobody renders with. Prong A: the tasks are real goroutines parked at every seam crossing (each Write, each callback invocation, each item method call, each row-class call, each registry lock boundary) and a seeded schedule decides who proceeds; every output and the final table snapshot of every task must equal what the same task script produces when executed alone. Prong B: the same task scripts run as truly parallel goroutines with no scheduler under the Go race detector (x_race_* keys). Non-trivial = at least two table-owning tasks rendered and at least one context switch happened inside a render; distinct = distinct interleavings (hash of the (task, park site) sequence) x scripts."
 }
